@@ -143,7 +143,13 @@ func observeFirst(x, y stack.Signature) (res string) {
 func (g *argGen) lessVariant(s stack.Signature) stack.Signature {
 	r := g.r
 	out := deepCopySig(s)
-	switch r.Intn(8) {
+	switch r.Intn(9) {
+	case 8:
+		fc := fileUniverse[r.Intn(len(fileUniverse))]
+		k := 60 + r.Intn(70)
+		for i := 0; i < k; i++ {
+			out.Stack.Calls = append(out.Stack.Calls, mkCall("runtime.gopark", fc, 7, stack.Args{}))
+		}
 	case 0:
 		out.Locked = !out.Locked
 	case 1:
